@@ -22,6 +22,14 @@ PROPS["C03"] = {
     "explanation": "attribute value codecs round trip", "assumptions": [],
 }
 
+PROPS["C17"] = {
+    "modules": ["harness.c17"], "level": "model_checking", "design_ref": "DESIGN.md 2/C17",
+    "level_text": "Old and new slivers are built from symbolic presence bits and symbolic property values over a fixed name universe; "
+                  "the expected edit script is read off those inputs and compared with the real diff() result for every assignment.",
+    "level_note": XH_NOTE + " Name universe: 2 components, 2 node services, 2 interfaces, 2 sub-interfaces.",
+    "explanation": "sliver diff vs edit script", "assumptions": [],
+}
+
 NOT_APPLICABLE = {
     "C01": "every value on the GraphML/JSON text path crosses expat/lxml/json C code and temp files, where a symbolic value is "
            "concretised; what remains would be concrete sampling, i.e. a different technique (store-level half is decided under C04/C20)",
